@@ -180,6 +180,8 @@ def step_must_pass(ctx, tk, f):
 def row_sum(ctx, tk):
     f = ctx.func(R2 + "sum")
     fa = ctx.fa(f)
+    from ..rlrules import weighted_sum_dtype
+    weighted_sum_dtype(ctx, "C17.e", f)
     for n in fa.cfg.stmts():
         if n.kind == "stmt" and isinstance(n.ast, ast.Assign):
             tm = fa.term(n.ast.value, n)
@@ -208,7 +210,7 @@ def row_sum(ctx, tk):
             if np_call(x, {"sum"}) and x.a[1] and x.a[1][0].k == "bin" and x.a[1][0].a[0] == "*":
                 ops = (x.a[1][0].a[1], x.a[1][0].a[2])
                 hasv = any(any(y.k == "attr" and y.a[1] == "_values" for y in walk(o)) for o in ops)
-                hasl = any(o.k == "bin" and o.a[0] == "-" for o in ops)
+                hasl = any(all(any(y.k == "bin" and y.a[0] == "-" for y in walk(a)) for a in alts(o)) for o in ops)
                 ctx.decide("C17.e", f, "row sums weight the run values by the run lengths", True if (hasv and hasl) else None, node=r.ast, key="weighted:%s" % r.lineno, engine="E5")
 
 
